@@ -54,7 +54,7 @@ class UnitEmitter:
         if i in self.size: return self.size[i]
         n = self.u['nodes'][i]
         op = n[0]
-        if op in ('var', 'lit', 'konst'): s = 1
+        if op in ('var', 'lit', 'liti', 'konst'): s = 1
         elif op in ('neg', 'bnot'): s = 1 + self.tsize(int(n[1]))
         elif op in ('call1', 'cast'): s = 1 + self.tsize(int(n[2]))
         elif op == 'call2': s = 1 + self.tsize(int(n[2])) + self.tsize(int(n[3]))
@@ -66,7 +66,7 @@ class UnitEmitter:
     def count_refs(self):
         for i, n in self.u['nodes'].items():
             op = n[0]
-            if op in ('var', 'lit', 'konst'): continue
+            if op in ('var', 'lit', 'liti', 'konst'): continue
             args = n[2:] if op in ('call1', 'call2', 'call3', 'cast') else n[1:]
             for a in args: self.refs[int(a)] += 1
         for i, c in self.u['conds'].items():
@@ -85,6 +85,7 @@ class UnitEmitter:
         if op == 'var': s = '(E.var %s)' % n[1]
         elif op == 'lit':
             a, b = lit_nd(n[1], n[2]); s = '(E.lit %s %d)' % (lean_int(a), b)
+        elif op == 'liti': s = '(E.lit %s 1)' % lean_int(int(n[1]))
         elif op == 'konst': s = '(E.konst .%s)' % n[1]
         elif op in ('neg', 'bnot'): s = '(E.%s %s)' % (op, self.expr(int(n[1])))
         elif op == 'call1': s = '(E.call1 .%s %s)' % (n[1], self.expr(int(n[2])))
